@@ -87,7 +87,9 @@ def main():
         for m in MUTANTS:
             print(m["name"], m["props"], m.get("note", ""))
         return
-    if a[0] == "run":
+    if a[0] == "all":
+        sel = list(MUTANTS)
+    elif a[0] == "run":
         sel = [m for m in MUTANTS if m["name"] in a[1:]]
     elif a[0] == "prop":
         sel = [m for m in MUTANTS if a[1] in m["props"]]
